@@ -471,6 +471,8 @@ structure BEnv (T : Type) where
   sym : Rat
   /-- `true`: `clearLinkedCache` as coded since fix b30c1b1 (transitive sweep); `false`: before it (direct dependents) -/
   transitive : Bool
+  /-- does `setLink` end with `clearLinkedCache()`? (`false`: the code as it is) -/
+  linkClears : Bool
 
 structure BState (T : Type) where
   /-- the block's children other than the derived shape, in order -/
@@ -600,6 +602,8 @@ inductive BOp (T : Type) where
   | setDim (i : Nat) (key : String) (v : Rat) (cold : Bool)
   /-- `comps[i].setDimension(key, v, retainLink=True, cold=cold)` -/
   | setDimRetain (i : Nat) (key : String) (v : Rat) (cold : Bool)
+  /-- `comps[i].setLink(key, comps[j], k)` -/
+  | setLink (i : Nat) (key : String) (j : Nat) (k : String)
   | qDim (i : Nat) (key : String) (cold : Bool)
   | qArea (i : Nat)
   | qVolume (i : Nat)
@@ -644,6 +648,14 @@ def bstep (e : BEnv T) (b : BState T) : BOp T → BState T × Option (List Rat)
         match setDimension (c.toComp e) key v cold with
         | none => (b, none)
         | some c' => ((b.modify i (fun c => { c with dims := c'.dims })).clearLinkedCache e i, some [])
+  | .setLink i key j k =>
+    -- `self.p[key] = _DimensionLink((otherComp, otherCompKey))`: unconditional, whatever the old value was (a number
+    -- or a link, equal to the target's current dimension or not); `e.linkClears`: followed by `clearLinkedCache()`
+    match b.comps[i]? with
+    | none => (b, none)
+    | some _ =>
+      let b1 := b.modify i (fun c => { c with dims := c.dims.map (fun p => if p.1 = key then (p.1, Dim.link j k) else p) })
+      (if e.linkClears then b1.clearLinkedCache e i else b1, some [])
   | .qDim i key cold => (b, (b.dim e i key cold).map (fun x => [x]))
   | .qArea i => (b, (b.area e i).map (fun x => [x]))
   | .qVolume i => ((b.getVolume e i).1, (b.getVolume e i).2.map (fun x => [x]))
